@@ -34,26 +34,26 @@ def describe():
 def units(tier, seed):
     q = tier == "quick"
     specs = [
-        {"sid": "basic", "family": "blocks", "size": 5 if q else 6, "donor": ("blocks", 4), "max_slices": 30 if q else 100},
-        {"sid": "list", "family": "lists", "size": 10 if q else 14, "donor": ("lists", 8), "max_slices": 24 if q else 100},
-        {"sid": "basic", "family": "inline_s", "size": 4 if q else 5, "donor": ("inline_s", 3), "max_slices": 30 if q else 100},
-        {"sid": "iso", "family": "iso", "size": 7 if q else 8, "donor": ("iso", 6), "max_slices": 25 if q else 80},
-        {"sid": "topmarks", "family": "topmarks", "size": 4 if q else 5, "donor": ("topmarks", 3), "max_slices": 20 if q else 60},
-        {"sid": "basic", "family": "links", "size": 4 if q else 6, "donor": ("links", 3), "max_slices": 10 if q else 40},
+        {"sid": "basic", "family": "blocks", "size": 5 if q else 6, "donor": ("blocks", 4), "max_slices": 30 if q else 40},
+        {"sid": "list", "family": "lists", "size": 10 if q else 11, "donor": ("lists", 8), "max_slices": 24 if q else 40},
+        {"sid": "basic", "family": "inline_s", "size": 4 if q else 5, "donor": ("inline_s", 3), "max_slices": 30 if q else 40},
+        {"sid": "iso", "family": "iso", "size": 7 if q else 8, "donor": ("iso", 6), "max_slices": 25 if q else 40},
+        {"sid": "topmarks", "family": "topmarks", "size": 4 if q else 5, "donor": ("topmarks", 3), "max_slices": 20 if q else 30},
+        {"sid": "basic", "family": "links", "size": 4 if q else 5, "donor": ("links", 3), "max_slices": 10 if q else 20},
     ]
     extra = [
-        {"sid": "table", "family": "table", "size": 12 if q else 14, "donor": ("table", 10), "max_slices": 25 if q else 80},
-        {"sid": "struct", "family": "struct", "size": 6 if q else 7, "donor": ("struct", 5), "max_slices": 25 if q else 80},
-        {"sid": "strict_hb", "family": "strict", "size": 9 if q else 10, "donor": ("strict", 8), "max_slices": 25 if q else 80},
-        {"sid": "list", "family": "lists_q", "size": 9 if q else 10, "donor": ("lists_q", 7), "max_slices": 25 if q else 80},
-        {"sid": "title", "family": "title", "size": 8 if q else 10, "donor": ("title", 7), "max_slices": 25 if q else 80},
-        {"sid": "list", "family": "astral", "size": 5 if q else 6, "donor": ("astral", 4), "max_slices": 25 if q else 80},
+        {"sid": "table", "family": "table", "size": 12, "donor": ("table", 10), "max_slices": 25 if q else 40, "blocks": 48},
+        {"sid": "struct", "family": "struct", "size": 6 if q else 7, "donor": ("struct", 5), "max_slices": 25 if q else 40},
+        {"sid": "strict_hb", "family": "strict", "size": 9 if q else 10, "donor": ("strict", 8), "max_slices": 25 if q else 40},
+        {"sid": "list", "family": "lists_q", "size": 9 if q else 10, "donor": ("lists_q", 7), "max_slices": 25 if q else 40},
+        {"sid": "title", "family": "title", "size": 8 if q else 9, "donor": ("title", 7), "max_slices": 25 if q else 40},
+        {"sid": "list", "family": "astral", "size": 5 if q else 6, "donor": ("astral", 4), "max_slices": 25 if q else 40},
     ]
     for sp in specs + extra:
         sp["offset"] = seed
-        sp["depth"] = 2 if q else 3
+        sp["depth"] = 2  # (histories of three operations proved too expensive even for the thorough tier)
         sp["hist_size"] = {"blocks": 2, "lists": 4, "inline_s": 2, "iso": 4, "topmarks": 2, "table": 7, "struct": 3,
-                           "strict": 7, "lists_q": 5, "title": 4, "astral": 3, "links": 2}[sp["family"]] + (0 if q else 2)
+                           "strict": 7, "lists_q": 5, "title": 4, "astral": 3, "links": 2}[sp["family"]] + (0 if q else 1)
     if q:
         specs.append(extra[seed % len(extra)])
     else:
